@@ -187,7 +187,7 @@ def adapt_circuit(circuit: Union[CircuitTemplate, str], params: dict, param_map:
                 for source, target, idx in edges:
                     for var in param_map[key]['vars']:
                         edge = circuit.get_edge(source=source, target=target, idx=idx)
-                        edge_updates.append((edge[0], edge[1], {var: val}))
+                        edge_updates.append((edge[0], edge[1], {var: val}, idx))
 
     return circuit.update_var(node_vars=node_updates, edge_vars=edge_updates)
 
